@@ -39,6 +39,9 @@ class C05(Prop):
     partial_note = ("derive_eq_spec covers an OPc configuration and op_opc transfers it to the OP-only configuration; "
                     "K_AUSF/K_SEAF are internal to DerivateKamf and proved on the model's chain function (kausf_kseaf_kamf_eq_spec)")
 
+    level_text = ("Lean theorems for all inputs, parametric in AES and HMAC: RES*, K_AUSF, K_SEAF, K_AMF, K_NASenc, K_NASint = "
+                  "TS 35.206 + TS 33.501 A.2/A.4/A.6/A.7/A.8 over the TS 33.220 KDF; OP-only = corresponding OPc; SN name for 2-/3-digit MNC")
+
     def key(self, op, impl, model, spec):
         return op.split(" ", 1)[0]
 
